@@ -538,15 +538,17 @@ func (c *checker) checkMeta(f *pFeature, kind, name string, m Meta) {
 		}
 	}
 	if ts, ok := got["timestamp"]; ok {
+		// the instant must be the element's, to the nanosecond; the zone it is
+		// spelled in is not part of the property
 		var s string
-		if m.TS == 0 {
+		if !m.hasTS() {
 			bad = true
 		} else if err := json.Unmarshal(ts, &s); err != nil {
 			bad = true
-		} else if t, err := time.Parse(time.RFC3339Nano, s); err != nil || !t.Equal(time.Unix(m.TS, 0)) {
+		} else if t, err := time.Parse(time.RFC3339Nano, s); err != nil || !t.Equal(m.instant()) {
 			bad = true
 		}
-	} else if m.TS != 0 {
+	} else if m.hasTS() {
 		bad = true
 	}
 	if bad {
